@@ -52,6 +52,8 @@ uint8_t * g_http_cb_body;
 void * g_http_cb_cookie;
 int g_http_cb_rv;
 unsigned g_http_ncancel;
+unsigned g_http_ndie;
+int g_http_envfail;
 unsigned g_http_nclose;
 int g_http_closed_fd;
 unsigned g_http_nconncancel;
@@ -64,6 +66,21 @@ int g_http_wait_fail;
 size_t g_http_i, g_http_j;
 size_t g_http_fe_i, g_http_fe_j;
 size_t g_http_eol;
+
+/* allocation inside the environment: may fail independently of cbmc's --malloc-may-fail */
+static void *
+http_model_alloc(size_t n)
+{
+	void * p;
+
+	if (nondet_int()) {
+		g_http_envfail = 1;
+		return (NULL);
+	}
+	if ((p = malloc(n)) == NULL)
+		g_http_envfail = 1;
+	return (p);
+}
 
 /* ------------------------------------------------------------------ the user's callback */
 int
@@ -91,9 +108,9 @@ netbuf_read_init(int s)
 	struct netbuf_read * R;
 
 	(void)s;
-	if ((R = malloc(sizeof(struct netbuf_read))) == NULL)
+	if ((R = http_model_alloc(sizeof(struct netbuf_read))) == NULL)
 		return (NULL);
-	if ((R->buf = malloc(HTTP_RBUF)) == NULL) {
+	if ((R->buf = http_model_alloc(HTTP_RBUF)) == NULL) {
 		free(R);
 		return (NULL);
 	}
@@ -125,8 +142,10 @@ netbuf_read_wait(struct netbuf_read * R, size_t len, int (* callback)(void *, in
 	R->wait_cookie = cookie;
 	R->wait_len = len;
 	/* events_immediate_register / buffer resize / network_read may fail (allocation). */
-	if (nondet_int())
+	if (nondet_int()) {
+		g_http_envfail = 1;
 		return (-1);
+	}
 	R->waiting = 1;
 	return (0);
 }
@@ -167,7 +186,7 @@ netbuf_write_init(int s, int (* fail_callback)(void *), void * fail_cookie)
 	struct netbuf_write * W;
 
 	(void)s;
-	if ((W = malloc(sizeof(struct netbuf_write))) == NULL)
+	if ((W = http_model_alloc(sizeof(struct netbuf_write))) == NULL)
 		return (NULL);
 	W->failed = 0;
 	W->fail_cb = fail_callback;
@@ -190,7 +209,11 @@ netbuf_write_write(struct netbuf_write * W, const uint8_t * buf, size_t buflen)
 	g_http_nwrite++;
 	(void)k;
 	/* netbuf_write_reserve may fail to allocate. */
-	return (nondet_int() ? -1 : 0);
+	if (nondet_int()) {
+		g_http_envfail = 1;
+		return (-1);
+	}
+	return (0);
 }
 
 void
@@ -214,7 +237,7 @@ http_model_ssl_open(int s, const char * host)
 	struct network_ssl_ctx * ctx;
 
 	(void)host;
-	if ((ctx = malloc(sizeof(struct network_ssl_ctx))) == NULL)
+	if ((ctx = http_model_alloc(sizeof(struct network_ssl_ctx))) == NULL)
 		return (NULL);
 	ctx->s = s;
 	return (ctx);
@@ -251,7 +274,7 @@ network_connect(struct sock_addr * const * sas, int (* callback)(void *, int), v
 
 	(void)sas; (void)callback; (void)cookie;
 	/* a connect cookie, or NULL on (allocation / socket) failure */
-	return (malloc(1));
+	return (http_model_alloc(1));
 }
 
 void
